@@ -13,10 +13,16 @@ from . import c03  # noqa: E402
 
 def valid_texts(rnd, count):
     out = []
-    names = ['one_many', 'many_one_2key', 'reflexive_11', 'assoc_class', 'valued', 'keywords', 'subsuper']
+    names = ['valued', 'keywords', 'one_many', 'many_one_2key', 'reflexive_11', 'assoc_class', 'subsuper', 'plain2']
     for k in range(count):
         schema = schemas.SCHEMAS[names[k % len(names)]]
         rows = c03.random_population(schema, rnd, rnd.randint(1, 5))
+        # string values with characters that matter to whoever formats messages or re-lexes text
+        for r in rows:
+            for a in schema['attrs'][r['c']]:
+                if a['t'] == 'STRING' and r['v'].get(a['n'], 'unset') != 'unset' and rnd.random() < 0.7:
+                    if not any(a['n'] in x['skeys'] + x['tkeys'] for x in schema['assocs']):
+                        r['v'][a['n']] = rnd.choice(['s@pct', 's@pct', 's@pct', 's@quote', 's@comment', 's@semi', 's@paren', 's@kw', 's@dq', 's@bs'])
         sch = [s for _, s in _sql.schema_statements(schema, rnd)]
         ins = [_sql.insert_statement(schema, r, rnd) for r in rows]
         out.append((sch, ins))
